@@ -235,7 +235,19 @@ impl<'p, 'a> Evaluator<'a, 'p> {
                                 }
                             }
                             PendingThunk::Call { func, args } => {
-                                self.execute_call(&func.view(), args);
+                                // Bind the arguments like any other call, so that
+                                // parameters with default values get bound and a wrong
+                                // number of arguments is reported as an error.
+                                let func = func.view();
+                                let (_, func_env) = self.get_func_info(&func);
+                                let args: Vec<_> = args.iter().map(Gc::view).collect();
+                                let args = self.check_call_thunk_args(
+                                    &func.params,
+                                    &args,
+                                    &[],
+                                    func_env,
+                                )?;
+                                self.execute_call(&func, args);
                             }
                         }
                     }
